@@ -186,5 +186,10 @@ func RunC01(tier string) int {
 	if report.Part("outperm") {
 		OutputPermutationPart(run, st, tierN(tier, 16, 200))
 	}
+	// several dependencies with equal output digests (same relative path, same bytes, different
+	// packages): see equalouts.go
+	if report.Part("equalouts") {
+		EqualOutputsPart(run, st, tierN(tier, 12, 150))
+	}
 	return run.Finish()
 }
